@@ -128,6 +128,9 @@ def gen_spans(rng, lo=0, hi=34):
         ln = rng.randint(1, 6)
         spans.append([pos, pos + ln])
         pos += ln + rng.choice([0, 1, 1, 2, 5])
+    if k > 1 and rng.random() < 0.2:
+        # a first span that covers the later ones (overlapping / nested spans: start, stop are still the hull)
+        spans[0][1] = spans[-1][1] + rng.choice([0, 1, 3])
     return spans
 
 
@@ -636,6 +639,18 @@ def spec_check(ctx, budget):
                 mc = dict(a=a, b=b, op=op)
         for what, inp, want, got, sig in run_multiset_case(mc, scratch, out, tag=f"m{i}"):
             add_failure(out, "spec", what, inp, want, got, sig=sig)
+    # every copy route x class x {in-memory, file-backed}, and every copy route after an update
+    for kind, how in plans[:3] + plans[3:4] + plans[5:]:
+        a = _one_block(build_case(rng, kind, how, 3))
+        for route in COPIES:
+            for extra in ([], ["file-backed"]):
+                mc = dict(a=a, b=None, op=["copy", route] + extra)
+                for what, inp, want, got, sig in run_multiset_case(mc, scratch, out, tag="cp"):
+                    add_failure(out, "spec", what, inp, want, got, sig=sig)
+            b = _one_block(build_case(rng, "basic", "add", 2))
+            mc = dict(a=a, b=b, op=["update", None, route])
+            for what, inp, want, got, sig in run_multiset_case(mc, scratch, out, tag="uc"):
+                add_failure(out, "spec", what, inp, want, got, sig=sig)
     # subset over every subset of arguments x window mode on one db per class (the cross product the property names)
     for kind, how in plans[:3] + plans[3:4] + plans[5:]:
         a = _one_block(build_case(rng, kind, how, 5))
